@@ -9,7 +9,7 @@ MANIFEST_ENTRY = dict(
     technique="TLC model checking of spec/MCWallet.tla + TLC-generated behaviours replayed on the real code + TLC trace validation (spec/TraceWallet.tla)",
     note=WALLET_NOTE)
 
-PARAMS = dict(quick_cfgs=["MC_C03_quick.cfg", "MC_C07_quick.cfg", "MC_C03_acct.cfg", "MC_C03_exact.cfg"], thorough_cfgs=["MC_C03.cfg", "MC_C03_late.cfg", "MC_C03_acct.cfg", "MC_C03_exact.cfg"],
+PARAMS = dict(quick_cfgs=["MC_C03_quick.cfg", "MC_C07_quick.cfg", "MC_C03_acct.cfg", "MC_C03_exact.cfg"], thorough_cfgs=["MC_C03.cfg", "MC_C03_late.cfg", "MC_C03_acct.cfg", "MC_C03_exact.cfg", "MC_C03_three.cfg@sim=500x30"],
               quick_n=220, thorough_n=700, focus=['rep', 'finalize:S2L', 'refused', 'lock:'], setup=STD_SETUP, assumptions=WALLET_ASSUME, extra_behaviours=[])
 
 
